@@ -42,6 +42,7 @@ func c11(x *mon.Ctx) {
 			}
 		}
 	})
+	honestOverRealHTTP(x)
 	// the root certificate carried in the quote is another issue of the trusted root (same name and key; other serial number
 	// and validity period — CAs re-issue their roots): a trust anchor is a name and a key, the quote need not carry the very
 	// certificate the verifier holds. Run under the pool here and, in the default-root phase, with that root as embedded root.
